@@ -5,7 +5,7 @@
    flows are compared with the model, the hash being instantiated by hashlib's digests).
    That the four publication sites all read grant.sub (consistency) is decided on the real endpoints by the
    driver's oracle; in the model there is only one value per grant. *)
-From Coq Require Import String NArith List.
+From Coq Require Import String NArith List Permutation.
 From Verif Require Import Lib.Base Lib.PyStr Model.Sub Proofs.Sub_proofs.
 From Verif Require Gen.Src_sub Proofs.Src_refine.
 Import ListNotations.
@@ -72,6 +72,75 @@ Theorem C18_registered_pairwise_is_not_public : forall (H : pystr -> pystr) (hos
   grant_sub H host_of (registered_record (Some (PS "pairwise")) (Some u)) rd uid salt n <> grant_sub H host_of r' rd' uid salt n'.
 Proof. exact registered_pairwise_not_public. Qed.
 Print Assumptions C18_registered_pairwise_is_not_public.
+
+(* CONFIGURED SUBJECT MINTERS (session_params.sub_func = {type: {"class" / "function": ...}}; Model/Sub.v load_sub_func is the
+   loop of EndpointContext.do_sub_func, fill_default the completion in SessionManager.__init__; the driver compares the model
+   with real providers configured with one, two or three subject types in every order - library classes PublicID / PairWiseID,
+   the library's functions, plain functions with their own salts - at the level of the grants and of the table itself). *)
+Theorem C18_table_serves_each_type_with_its_own_minter : forall conf k,
+  assoc k (minter_table conf) = match configured conf k with Some m => Some m | None => default_minter k end.
+Proof. exact table_lookup. Qed.
+Print Assumptions C18_table_serves_each_type_with_its_own_minter.
+
+Theorem C18_configured_minter_serves_its_type : forall (H : pystr -> pystr) (host_of : pystr -> pystr) conf r rd uid salt n m,
+  configured conf (type_key_of r) = Some m ->
+  grant_sub_conf H host_of conf r rd uid salt n = mint H m uid salt (host_of (sector_source r rd)) n.
+Proof. exact configured_serves. Qed.
+Print Assumptions C18_configured_minter_serves_its_type.
+
+Theorem C18_unconfigured_type_gets_builtin : forall (H : pystr -> pystr) (host_of : pystr -> pystr) conf r rd uid salt n,
+  configured conf (type_key_of r) = None ->
+  grant_sub_conf H host_of conf r rd uid salt n = grant_sub H host_of r rd uid salt n.
+Proof. exact unconfigured_default. Qed.
+Print Assumptions C18_unconfigured_type_gets_builtin.
+
+Theorem C18_configuration_order_irrelevant : forall (H : pystr -> pystr) (host_of : pystr -> pystr) conf conf' r rd uid salt n,
+  NoDup (map fst conf) -> Permutation conf conf' ->
+  grant_sub_conf H host_of conf r rd uid salt n = grant_sub_conf H host_of conf' r rd uid salt n.
+Proof. exact order_independent. Qed.
+Print Assumptions C18_configuration_order_irrelevant.
+
+Theorem C18_configured_public_equal_across_clients : forall (H : pystr -> pystr) (host_of : pystr -> pystr) conf p own r1 r2 rd1 rd2 uid salt n1 n2,
+  configured conf (PS "public") = Some (MHash p false own) ->
+  type_key_of r1 = PS "public" -> type_key_of r2 = PS "public" ->
+  grant_sub_conf H host_of conf r1 rd1 uid salt n1 = grant_sub_conf H host_of conf r2 rd2 uid salt n2.
+Proof. exact conf_public_across_clients. Qed.
+Print Assumptions C18_configured_public_equal_across_clients.
+
+Theorem C18_configured_pairwise_iff_same_sector : forall (H : pystr -> pystr) (host_of : pystr -> pystr),
+  (forall a b, H a = H b -> a = b) ->
+  forall conf p own r1 r2 rd1 rd2 uid salt n1 n2,
+  configured conf (PS "pairwise") = Some (MHash p true own) ->
+  type_key_of r1 = PS "pairwise" -> type_key_of r2 = PS "pairwise" ->
+  (grant_sub_conf H host_of conf r1 rd1 uid salt n1 = grant_sub_conf H host_of conf r2 rd2 uid salt n2
+   <-> host_of (sector_source r1 rd1) = host_of (sector_source r2 rd2)).
+Proof. exact conf_pairwise_iff_sector. Qed.
+Print Assumptions C18_configured_pairwise_iff_same_sector.
+
+Theorem C18_configured_hash_separates_users : forall (H : pystr -> pystr) (host_of : pystr -> pystr),
+  (forall a b, H a = H b -> a = b) ->
+  forall conf p us own r rd u1 u2 salt n1 n2,
+  configured conf (type_key_of r) = Some (MHash p us own) -> u1 <> u2 ->
+  grant_sub_conf H host_of conf r rd u1 salt n1 <> grant_sub_conf H host_of conf r rd u2 salt n2.
+Proof. exact conf_distinct_users. Qed.
+Print Assumptions C18_configured_hash_separates_users.
+
+Theorem C18_configured_stable : forall (H : pystr -> pystr) (host_of : pystr -> pystr) conf r rd uid salt n1 n2,
+  assoc (type_key_of r) (minter_table conf) <> Some MFresh ->
+  grant_sub_conf H host_of conf r rd uid salt n1 = grant_sub_conf H host_of conf r rd uid salt n2.
+Proof. exact conf_stable. Qed.
+Print Assumptions C18_configured_stable.
+
+(* non-vacuity of the configured part: the documented configuration in both orders, a skipped entry, an unknown key *)
+Example C18_configured_nonvacuous :
+  let c1 := [(PS "public", EMinter (cls_PublicID (PS "s1"))); (PS "pairwise", EMinter (cls_PairWiseID (PS "s2")))] in
+  let c2 := [(PS "pairwise", EMinter (cls_PairWiseID (PS "s2"))); (PS "ephemeral", ESkipped); (PS "public", EMinter (cls_PublicID (PS "s1")))] in
+  assoc (PS "public") (minter_table c1) = Some (cls_PublicID (PS "s1")) /\ assoc (PS "public") (minter_table c2) = Some (cls_PublicID (PS "s1")) /\
+  assoc (PS "pairwise") (minter_table c1) = Some (cls_PairWiseID (PS "s2")) /\ assoc (PS "pairwise") (minter_table c2) = Some (cls_PairWiseID (PS "s2")) /\
+  assoc (PS "ephemeral") (minter_table c2) = Some MFresh /\ assoc (PS "other") (minter_table c2) = None /\
+  map fst (minter_table c1) = [PS "public"; PS "pairwise"; PS "ephemeral"] /\
+  map fst (minter_table c2) = [PS "pairwise"; PS "public"; PS "ephemeral"].
+Proof. vm_compute. repeat split; reflexivity. Qed.
 
 (* non-vacuity *)
 Example C18_nonvacuous :
